@@ -45,7 +45,7 @@ def one(name, tier, workers):
         out["demo_changed_exit"] = rc
         det = {}
         for c in props:
-            rc, o = sh(f"./check {c} --tier {tier} --workers {workers}", cwd=V, env={"DFMC_REPO": scratch})
+            rc, o = sh(f"./check {c} --tier {tier} --workers {workers}", cwd=V, env={"DFMC_REPO": scratch, "DFMC_FAILFAST": "1"})
             sigs = re.findall(r"sig=(\S+) instances=(\d+)", o)
             det[c] = {"exit": rc, "violations": [f"{s} x{n}" for s, n in sigs][:6]}
         out["checks"] = det
